@@ -129,9 +129,21 @@ def r13_b(ctx):
         ok_txt = t is not None and norm(t) == 'self.text[%s]' % ip
         defs = set()
         if ok:
+            def leaves(e):
+                if isinstance(e, ast.IfExp):
+                    return leaves(e.body) + leaves(e.orelse)
+                if isinstance(e, ast.BoolOp) and isinstance(e.op, ast.Or):
+                    out = []
+                    for v in e.values:
+                        out += leaves(v)
+                    return out
+                return [norm(e)]
             for n in ast.walk(fd.node):
                 if isinstance(n, ast.Assign) and isinstance(n.targets[0], ast.Name) and n.targets[0].id == startvar[0]:
-                    defs.add(norm(n.value))
+                    defs |= set(leaves(n.value))
+                if isinstance(n, ast.AugAssign) and isinstance(n.target, ast.Name) and n.target.id == startvar[0] \
+                        and isinstance(n.op, ast.Add):
+                    defs.add('%s + %s' % (startvar[0], norm(n.value)))
             need = {ip, '%s.start' % ip, '0'}
             neg = any(d.replace(' ', '') in ('len(self.text)+%s' % startvar[0], '%s+len(self.text)' % startvar[0]) for d in defs)
             ok = need <= defs and neg
@@ -239,16 +251,16 @@ def r13_e(ctx):
              and 'init' in n.func.attr and norm(n.func.value) == 'self']
     if not inits:
         raise AnalysisError('forward_until: accumulator construction not found')
+    from .model import resolve_locals
     for c in inits:
         p = c.args[1] if len(c.args) > 1 else None
         ok = False
         if p is not None:
+            p = resolve_locals(fd.node, p)
             for x in ast.walk(p):
                 if isinstance(x, ast.Attribute) and x.attr == 'position':
                     base = x.value
                     if isinstance(base, ast.Call) and norm(base) == 'self.peek()':
-                        ok = True
-                    elif isinstance(base, ast.Name) and se.definition_text(base.id) == 'self.peek()':
                         ok = True
             if any(norm(x) in ('self.position', 'self._Buffer__i') or (isinstance(x, ast.Attribute) and x.attr.endswith('__i'))
                    for x in ast.walk(p)):
